@@ -659,6 +659,10 @@ def _check_file(f, c, key, state="registered", bec2pair=None):
             if alen != dlen or total != len(expect):
                 return ("stored-lengths", "component %d: stored length %d declared %d, expected %d / %d" % (
                     i, total, alen, len(expect), dlen))
+    if c.get("stored_only"):
+        # a component flagged for encryption whose tag list does not say ENC=02: the reader cannot know that it has to
+        # decrypt; only the storage clause applies (judged above)
+        return None
     # read back with the key: MAC checking on and off, through a stream and (subset) a path
     rexts = exts + [ConfigSecurityCodeEncryptor(c["code"])] if c["framing"] == "bec2" else None
     vias = ("stream", "path") if (c.get("sink") == "path" or c.get("readpath")) else ("stream",)
@@ -954,6 +958,21 @@ def search(ctx):
         fr = "bec2" if (i // 5) % 2 else "bf3"
         go(mk_case(r, fr, content if i % 4 else None, None, k, state=state, sink="path" if (i // 10) % 2 else "stream",
                    cfg=gen_cfg(r, True) if i % 4 == 0 else None), "state:%s/%s" % (state, fr))
+    # 4b. components handed over with the encryption flag set but WITHOUT the ENC=02 tag (no ENC tag, 00, 01): the flag
+    #     decides - they are stored as ciphertext like any other flagged component
+    for i in range(ctx.budget(40, 600) * (4 if hard else 1)):
+        ln = r.choice([1, 8, 15, 16, 17, 32, 33, 48])
+        content = bytes(r.randrange(256) for _ in range(ln))
+        k = keys_of(r)[i % 3]
+        c = mk_case(r, "bec2" if i % 2 else "bf3", content, None, k)
+        tags = dict(c["comps"][[x[3] for x in c["comps"]].index(True)][0])
+        enc_tag = [None, b"\x00", b"\x01", b""][i % 4]
+        tags.pop(0xC2, None)
+        if enc_tag is not None:
+            tags[0xC2] = enc_tag
+        c["comps"] = [(tags, x[1], x[2], x[3]) if x[3] else x for x in c["comps"]]
+        c["stored_only"] = True
+        go(c, "flag-without-tag/%s" % ("none" if enc_tag is None else enc_tag.hex() or "empty"))
     # 5. object histories: write, change a component in place (content, declared length, tags,
     #    flag, order, key, same object in a second file, set_config again), write again
     for i in range(ctx.budget(150, 3000) * (4 if hard else 1)):
